@@ -1004,6 +1004,42 @@ def prog_multi(seed: int, n_ops: int = 8, *, three: float = 0.3, prefs: float = 
             else:
                 r = g.join(t, u, pred, bt=rng.random() < 0.7, tr=rng.random() < 0.6)
         observed.append(r)
+    if rng.random() < 0.14:
+        # an ORDER- or COUNT-dependent request (slice, deduplication, selection) with a preferred engine, over
+        # operations that change the order or the count (descending sort, selection, slice, deduplication)
+        # downstream of a transfer between two order-preserving engines: back-tracking must stop at them
+        if "e2" not in engines:
+            g.engine("e2", "iter")
+            engines.append("e2")
+        e_src, e_mid = rng.choice([("e1", "e2"), ("e2", "e1")])
+        cs = sorted(rng.sample(["a", "b", "d"], 2))
+        src = g.leaf(e_src, cols=cs, nrows=4)
+        cur = g.transfer(src, e_mid)
+        if rng.random() < 0.5:
+            op, nc = g.rand_op(g.cols[cur], allow=("calc",))
+            cur = g.apply(cur, op, nc)
+        for _ in range(rng.choice([1, 1, 2])):
+            blk = rng.choice(["sortdesc", "sortdesc", "sel", "slice", "dedup"])
+            if blk == "sortdesc":
+                op = ["sort", ["term", ["ref", rng.choice(cs)], "desc"]]
+            elif blk == "sel":
+                op = ["sel", ["pfn", rng.choice(["gt", "ge", "ne"]), "*", ["ref", rng.choice(cs)], ["lit", rng.choice([0, 1])]]]
+            elif blk == "slice":
+                op = ["slice", rng.choice([1, 2]), "-", "-"]
+            else:
+                op = ["dedup"]
+            cur = g.apply(cur, op, g.cols[cur])
+        req = rng.choice(["slice", "slice", "slice", "dedup", "sel"])
+        if req == "slice":
+            a = rng.choice([0, 0, 1])
+            op2 = ["slice", a if a else "-", rng.choice([a + 1, a + 2, "-"]) if a else rng.choice([1, 2]), "-"]
+        elif req == "dedup":
+            op2 = ["dedup"]
+        else:
+            op2 = ["sel", ["pfn", rng.choice(["gt", "lt", "ne"]), "*", ["ref", rng.choice(cs)], ["lit", rng.choice([0, 1, 2])]]]
+        plain = g.apply(cur, op2, g.cols[cur])
+        pr = g.apply(cur, op2, g.cols[cur], g.opts(e_src, True, rng.random() < 0.4, rng.random() < 0.25))
+        observed += [plain, pr]
     if rng.random() < 0.1:
         # a SORTED (unsliced) SQL relation sent to an iteration engine and straight back: the round trip
         # returns the original relation, so a further sort on another column still breaks ties by the
